@@ -522,3 +522,26 @@ PROPS["C18"] = dict(
     rule="cases: every file of MC_Detector (<= MaxLines lines from {code, ref, legacy ref, indented, mid-line look-alike, empty URL, URL with blanks, empty line} x {LF, CRLF, no final newline}); every token list of MC_Encode as a map (three construction routes) for data URLs and detection; seeded files (case/spacing look-alikes, lone CR, non-ASCII blanks, data: URLs) and random flat/Hermes/index maps; distinct = distinct (op, args); non-trivial = file longer than 3 characters or any map event",
     assumptions=COMMON_ASSUMPTIONS,
 )
+
+def _corrupt_c17(e):
+    r = e["out"]["ret"]
+    e["out"]["ret"] = [] if r else ["zz"]
+    return True
+
+PROPS["C17"] = dict(
+    level="model_checking",
+    level_text="NameResolve.tla fixes the character classes of a closed alphabet, defines the text of a token at a UTF-16 column (skip blanks, longest identifier prefix), the walk back over tokens and the relation ResolveOK (first token whose text is the minified name and whose predecessor's text is 'function'; nothing for non-identifiers; 128-token budget with the single boundary position left free). TLC checks walk = first pair on every single-line program assembled from 10 fragments (keyword, blanks, ASCII / 2-byte / 3-byte / astral identifiers, a joiner, punctuation) x 8 candidate names, and enumerates them. Every program is resolved by the real crate at every token (exact, inexact and later-line positions) through SourceMap, SourceMapIndex and DecodedMap, judged by TLC; seeded multi-line programs add tokens past line ends and a family with the pair 118..131 tokens back.",
+    level_note="Unicode tables of unicode-id-start outside the closed alphabet are not modelled; tokens are strictly ordered in the judged maps",
+    technique="TLA+ token-text and reverse-walk specification with a model-checked walk machine, trace validation of real get_original_function_name results",
+    mc=[
+        dict(module="MC_NameResolve", cfg="MC_NameResolve_quick.cfg", tiers=("quick",), workers=8),
+        dict(module="MC_NameResolve", cfg="MC_NameResolve_thorough.cfg", tiers=("thorough",), workers=14, timeout=3400, heap="24g"),
+    ],
+    trace="Trace_C17",
+    drive=dict(quick=dict(n=120, size=3), thorough=dict(n=4000, size=6)),
+    nontrivial=lambda e: len(e["args"]["toks"]) >= 2,
+    corrupt=_corrupt_c17,
+    corruptible=lambda e: True,
+    rule="cases: every program of MC_NameResolve (<= MaxFrags fragments, a token on every fragment start) x 8 names (identifiers incl. non-ASCII/astral/joiner, two non-identifiers), queried at every token, one column right of the last and on the next line; seeded multi-line programs (several functions per line, comments with astral characters, names pointing at the blank before the identifier, tokens past the end of a line or on a missing line), 6 queries each, and the 128-budget family; distinct = distinct (op, args); non-trivial = at least 2 tokens",
+    assumptions=COMMON_ASSUMPTIONS,
+)
